@@ -7,6 +7,7 @@ import (
 	"fmt"
 	"go/ast"
 	"go/token"
+	"os"
 	"path/filepath"
 	"strconv"
 	"strings"
@@ -106,6 +107,56 @@ func genC03() {
 		fc[k] = v
 	}
 	facts["rdb_consts"] = fc
+
+	// the stream expansion keeps idle consumers only when the loader is built with
+	// rdb.WithStreamIdleConsumers() (repair of C03-F1): the model assumes it, so every production
+	// call site that parses a snapshot (rdb.ParseRdb / rdb.NewLoader outside tests) must pass it -
+	// directly in the enclosing function or through RedisOutput.rdbParseOptions
+	var optSites, parseSites []string
+	for _, dir := range []string{"syncer", "cmd"} {
+		ents, err := os.ReadDir(filepath.Join(*repo, dir))
+		if err != nil {
+			die("read %s: %v", dir, err)
+		}
+		for _, e := range ents {
+			n := e.Name()
+			if e.IsDir() || !strings.HasSuffix(n, ".go") || strings.HasSuffix(n, "_test.go") {
+				continue
+			}
+			_, f := parseFile(filepath.Join(dir, n))
+			for _, d := range f.Decls {
+				fd, ok := d.(*ast.FuncDecl)
+				if !ok || fd.Body == nil {
+					continue
+				}
+				ast.Inspect(fd.Body, func(nd ast.Node) bool {
+					c, ok := nd.(*ast.CallExpr)
+					if !ok {
+						return true
+					}
+					if sel, ok := c.Fun.(*ast.SelectorExpr); ok {
+						if x, ok := sel.X.(*ast.Ident); ok && x.Name == "rdb" {
+							switch sel.Sel.Name {
+							case "WithStreamIdleConsumers":
+								optSites = append(optSites, dir+"/"+n+":"+fd.Name.Name)
+							case "ParseRdb", "NewLoader":
+								parseSites = append(parseSites, dir+"/"+n+":"+fd.Name.Name+":"+sel.Sel.Name)
+							}
+						}
+					}
+					return true
+				})
+			}
+		}
+	}
+	if optSites == nil {
+		optSites = []string{}
+	}
+	if parseSites == nil {
+		parseSites = []string{}
+	}
+	facts["idle_consumer_option_sites"] = optSites
+	facts["rdb_parse_sites"] = parseSites
 }
 
 func evalConstInt(e ast.Expr) (int64, bool) {
